@@ -32,7 +32,15 @@ prepare() {
   for f in "$REPO"/*.go; do
     case "$f" in *_test.go) ;; *) cp "$f" "$S/jsonapi/" || die2 "copy";; esac
   done
-  printf 'module github.com/mfcochauxlaberge/jsonapi\n\ngo 1.18\n' > "$S/jsonapi/go.mod"
+  # the injected generic helper needs go >= 1.18; a tree that asks for a newer language version keeps it
+  local gov; gov="$(awk '$1=="go"{print $2; exit}' "$REPO/go.mod" 2>/dev/null)"
+  case "$gov" in 1.[0-9]|1.1[0-7]|"") gov=1.18;; esac
+  if [ -f "$REPO/go.mod" ]; then
+    sed "s/^go [0-9][0-9.]*\$/go $gov/" "$REPO/go.mod" > "$S/jsonapi/go.mod"
+    [ -f "$REPO/go.sum" ] && cp "$REPO/go.sum" "$S/jsonapi/go.sum"
+  else
+    printf 'module github.com/mfcochauxlaberge/jsonapi\n\ngo %s\n' "$gov" > "$S/jsonapi/go.mod"
+  fi
   export VERIF_TREE_HASH="$(cd "$S/jsonapi" && cat *.go | sha256sum | cut -c1-16)"
   cp "$VERIF/sim/hooks/zz_verif_sim.go.tmpl" "$S/jsonapi/zz_verif_sim.go"
   "$VERIF/.bin/instrument" -dir "$S/jsonapi" > "$S/instrument.log" 2>&1 || { cat "$S/instrument.log" >&2; die2 "instrumentation of the working tree failed"; }
